@@ -2,16 +2,21 @@
 from props import compile_common as cc
 
 LEVEL = 'proof'
-MODULES = ['Pysmi.Props.C10']
-LAKE_TARGETS = ['Pysmi.Props.C10']
+MODULES = ['Pysmi.Props.C10', 'Pysmi.Props.C10Searcher']
+LAKE_TARGETS = ['Pysmi.Props.C10', 'Pysmi.Props.C10Searcher']
 THEOREMS = [
     'Pysmi.Compile.C10_searchLoop_fresh',
     'Pysmi.Compile.C10_searchLoop_calls',
     'Pysmi.Compile.C10_needStep',
     'Pysmi.Compile.C10_gen_calls',
+    'Pysmi.Searcher.C10_anyfile_exact',
+    'Pysmi.Searcher.C10_pyfile_exact_partial',
+    'Pysmi.Searcher.C10_rebuild_files',
+    'Pysmi.Searcher.C10_stub',
+    'Pysmi.Searcher.C10_pyc_flags_witness',
 ]
 TECHNIQUE = 'Lean 4 theorems about a model of MibCompiler.compile over abstract component oracles; differential correspondence (status map + full call trace) against the real compile() driven by scripted doubles; oracle search'
-LEVEL_TEXT = ("Compile level, proved in Lean for every searcher list and answer assignment: searchers asked in order up to and including the first fresh answer (every other answer moves on); a parsed module is untouched and removed from generation iff some searcher says fresh or noDeps excludes it; the generator is called exactly once per remaining module. The file searchers' own decision (mtime comparison, extensions, rebuild, stubs) is exercised against the real searchers on scratch directories (exhaustive small layouts) - a Lean model of it is planned (Model/Searcher).")
+LEVEL_TEXT = ("Compile level, proved in Lean for every searcher list and answer assignment: searchers asked in order up to and including the first fresh answer (every other answer moves on); a parsed module is untouched and removed from generation iff some searcher says fresh or noDeps excludes it; the generator is called exactly once per remaining module. The file searchers' own decision is modelled (Model/Searcher.lean) and proved exact for every directory content, extension list, mtime and rebuild setting (AnyFileSearcher fully; PyFileSearcher under the hypothesis that no good-magic .pyc sits beside the module - the excluded case is the recorded finding F18 with its witness theorem); stub lists are not overridden by rebuild. Tied to the real searchers on scratch directories (all mtime orderings around equality, same-named directories, other extensions, bad/good .pyc headers, one searcher instance reused while the directory changes).")
 LEVEL_NOTE = ('Trusted: Lean kernel + standard axioms; the hand-written model of compile() (Model/Compile.lean), tied to '
               '/repo by the correspondence on every run; component doubles stand for readers/parser/generators/searchers/'
               'borrowers/writer (their real behaviour is the subject of other properties).')
@@ -21,7 +26,133 @@ ASSUMPTIONS = [
 ]
 
 
+SRC = 1000000000
+
+
+def set_entry(d, name, ent, magic):
+    import os
+    import shutil
+    import struct
+    p = os.path.join(d, name)
+    if os.path.isdir(p):
+        shutil.rmtree(p)
+    elif os.path.exists(p):
+        os.unlink(p)
+    if ent == 'absent':
+        return
+    if ent == 'dir':
+        os.makedirs(p)
+        return
+    _, t, hdr = ent
+    with open(p, 'wb') as f:
+        if name.endswith('.pyc'):
+            if hdr is None:
+                f.write(b'BAD!' + b'\0' * 12)
+            else:
+                f.write(magic + struct.pack('<L', hdr) + b'\0' * 8)
+        else:
+            f.write(b'x')
+    os.utime(p, (t, t))
+
+
+def real_searchers(ctx):
+    """AnyFileSearcher / PyFileSearcher / StubSearcher on scratch directories; one searcher instance per
+    directory is reused while the directory changes between queries."""
+    import itertools
+    import os
+    import shutil
+    from common import scratch_dir
+    from pysmi import error
+    from pysmi.searcher.anyfile import AnyFileSearcher
+    from pysmi.searcher.pyfile import PyFileSearcher, PY_MAGIC_NUMBER, SOURCE_SUFFIXES, BYTECODE_SUFFIXES
+    from pysmi.searcher.stub import StubSearcher
+    res, rng = ctx.res, ctx.rng
+    reqs, metas = [], []
+    times = [SRC - 1, SRC, SRC + 1]
+    plain = ['absent', 'dir'] + [['file', t, None] for t in times]
+    pyc = ['absent', 'dir', ['file', SRC + 5, None]] + [['file', SRC + 5, h] for h in (0, SRC - 1, SRC, SRC + 1)]
+    base = scratch_dir()
+
+    def ask(s, name, mtime, rebuild):
+        try:
+            s.fileExists(name, mtime, rebuild=rebuild)
+            return 'ret'
+        except error.PySmiFileNotModifiedError:
+            return 'nm'
+        except error.PySmiFileNotFoundError:
+            return 'nf'
+        except error.PySmiError as e:
+            return 'err:' + type(e).__name__
+    try:
+        d = os.path.join(base, 'd')
+        os.makedirs(d)
+        anys = AnyFileSearcher(d).setOptions(exts=['.json', '.txt'])
+        pys = PyFileSearcher(d)
+        combos_any = list(itertools.product(plain, plain, plain))
+        combos_py = list(itertools.product(plain, pyc, ['absent', ['file', SRC + 1, None]]))
+        if ctx.tier == 'quick':
+            rng.shuffle(combos_any)
+            rng.shuffle(combos_py)
+            combos_any, combos_py = combos_any[:60], combos_py[:70]
+        # start from an empty directory: the first queries see nothing (exposes cached listings)
+        for name in ('X-MIB', 'Y-MIB'):
+            for rebuild in (False, True):
+                got = ask(pys, name, SRC, rebuild)
+                reqs.append({'op': 'searcher', 'kind': 'py', 'mtime': SRC, 'rebuild': rebuild, 'entries': [],
+                             'bytecode': list(BYTECODE_SUFFIXES), 'source': list(SOURCE_SUFFIXES)})
+                metas.append((('py', name, [], rebuild), got, False))
+        for combo in combos_any:
+            ents = dict(zip(['.json', '.txt', '.py'], combo))
+            for sfx, e in ents.items():
+                set_entry(d, 'X-MIB' + sfx, e, PY_MAGIC_NUMBER)
+            for rebuild in (False, True):
+                got = ask(anys, 'X-MIB', SRC, rebuild)
+                fresh = any(isinstance(ents[x], list) and ents[x][1] >= SRC for x in ('.json', '.txt'))
+                reqs.append({'op': 'searcher', 'kind': 'any', 'mtime': SRC, 'rebuild': rebuild, 'exts': ['.json', '.txt'],
+                             'entries': [[k, v] for k, v in ents.items()]})
+                metas.append((('any', 'X-MIB', ents, rebuild), got, fresh and not rebuild))
+        for sfx in ('.json', '.txt', '.py'):
+            set_entry(d, 'X-MIB' + sfx, 'absent', PY_MAGIC_NUMBER)
+        for combo in combos_py:
+            ents = dict(zip(['.py', '.pyc', '.json'], combo))
+            for sfx, e in ents.items():
+                set_entry(d, 'X-MIB' + sfx, e, PY_MAGIC_NUMBER)
+            for rebuild in (False, True):
+                got = ask(pys, 'X-MIB', SRC, rebuild)
+                good_pyc = isinstance(ents['.pyc'], list) and ents['.pyc'][2] is not None
+                fresh = None if good_pyc else (isinstance(ents['.py'], list) and ents['.py'][1] >= SRC)
+                reqs.append({'op': 'searcher', 'kind': 'py', 'mtime': SRC, 'rebuild': rebuild,
+                             'bytecode': list(BYTECODE_SUFFIXES), 'source': list(SOURCE_SUFFIXES),
+                             'entries': [[k, v] for k, v in ents.items()]})
+                metas.append((('py', 'X-MIB', ents, rebuild), got, None if fresh is None else (fresh and not rebuild)))
+        stub = StubSearcher('A-MIB', 'B-MIB')
+        for name in ('A-MIB', 'B-MIB', 'C-MIB', 'a-mib'):
+            for rebuild in (False, True):
+                got = ask(stub, name, SRC, rebuild)
+                reqs.append({'op': 'searcher', 'kind': 'stub', 'mtime': SRC, 'rebuild': rebuild, 'entries': [],
+                             'names': ['A-MIB', 'B-MIB'], 'name': name})
+                metas.append((('stub', name, {}, rebuild), got, name in ('A-MIB', 'B-MIB')))
+    finally:
+        shutil.rmtree(base, ignore_errors=True)
+    for case, got, fresh in metas:
+        res.case(case, True)
+        res.count('real-searcher:' + case[0])
+        res.count('answer:' + got)
+        if fresh is not None and (got == 'nm') != fresh:
+            key = 'searcher-exact'
+            res.oracle_failures.append({'key': key, 'what': '%s searcher answered %s for %r (up to date: %s, rebuild=%s)' % (
+                case[0], got, case[2], fresh, case[3]), 'input': {'searcher': list(case)}})
+    # the legacy .pyc finding (F18) is replayed from known_findings.json, not generated here
+    if ctx.model is not None:
+        for (case, got, _), out in zip(metas, ctx.model.batch(reqs)):
+            if out != got:
+                res.corr_failures.append({'what': 'searcher answer differs from Model.Searcher', 'case': case,
+                                          'impl': got, 'model': out})
+    res.sample({'searcher_case': metas[len(metas) // 2][0], 'impl_answer': metas[len(metas) // 2][1]})
+
+
 def run(ctx):
+    real_searchers(ctx)
     n = 1200 if ctx.tier == 'quick' else 12000
     cc.run_stream(ctx, 'C10', n, 300 if ctx.tier == 'quick' else 3000)
 
@@ -31,4 +162,41 @@ def search(ctx):
 
 
 def replay(payload):
+    inp = payload.get('input', {})
+    if 'pyc_layout' in inp:
+        return replay_pyc(inp['pyc_layout'])
+    if 'searcher' in inp:
+        import common
+        class C:
+            pass
+        ctx = C()
+        ctx.res = common.Result('C10', 'thorough', 0)
+        ctx.model, ctx.tier = None, 'thorough'
+        import random
+        ctx.rng = random.Random(0)
+        real_searchers(ctx)
+        return {'fails': bool(ctx.res.oracle_failures), 'what': [f['what'] for f in ctx.res.oracle_failures[:5]]}
     return cc.replay_scenario('C10', payload)
+
+
+def replay_pyc(layout):
+    """layout: {'.py': mtime offset, '.pyc': header word}: fresh .py beside a legacy .pyc"""
+    import os
+    import shutil
+    from common import scratch_dir
+    from pysmi import error
+    from pysmi.searcher.pyfile import PyFileSearcher, PY_MAGIC_NUMBER
+    d = scratch_dir()
+    try:
+        set_entry(d, 'X-MIB.py', ['file', SRC + layout['.py'], None], PY_MAGIC_NUMBER)
+        set_entry(d, 'X-MIB.pyc', ['file', SRC + 5, layout['.pyc']], PY_MAGIC_NUMBER)
+        try:
+            PyFileSearcher(d).fileExists('X-MIB', SRC)
+            got = 'ret'
+        except error.PySmiFileNotModifiedError:
+            got = 'nm'
+        except error.PySmiFileNotFoundError:
+            got = 'nf'
+        return {'fails': got != 'nm', 'what': 'PyFileSearcher answered %s although X-MIB.py is up to date' % got}
+    finally:
+        shutil.rmtree(d, ignore_errors=True)
